@@ -78,6 +78,17 @@ Record NT (s : st) : Prop := mkNT {
   N_bound : forall n nm c, nch s n nm = Some c -> c < nlen s;
   N_pos : 0 < nlen s }.
 
+(** childRefs has one entry per name (it is a Go map) *)
+Definition pkeys (pn : pnode) : Prop := NoDup (map fst (pn_refs pn)) /\ NoDup (map fst (pn_nodes pn)).
+Definition rkeys (s : st) : Prop := forall n, pkeys (gnode s n).
+
+Lemma pkeys_with_refs pn f g : pkeys pn -> NoDup (map fst f) -> pkeys (pn_with_refs pn f g).
+Proof. intros (_ & K) H. split; auto. Qed.
+Lemma pkeys_with_nodes pn f : pkeys pn -> NoDup (map fst f) -> pkeys (pn_with_nodes pn f).
+Proof. intros (K & _) H. split; auto. Qed.
+Lemma pkeys_with_deleted pn : pkeys pn -> pkeys (pn_with_deleted pn).
+Proof. intros K. exact K. Qed.
+
 (** ---- the invariant ---- *)
 Record Good (s : st) (g : list (option nat)) : Prop := mkGood {
   G_fs : FsInv (s_be pfs s);
@@ -101,6 +112,9 @@ Record Good (s : st) (g : list (option nat)) : Prop := mkGood {
   G_nbound : forall r, r < rlen s -> fr_node (gref s r) < nlen s;
   (** an xattr fidRef is not a directory (it cannot be walked from, or created in) *)
   G_xmode : forall r o, r < rlen s -> fr_xattrOf (gref s r) = Some o -> is_dir (fr_mode (gref s r)) = false;
+  (** a File-owning fidRef without parent is an attach point: its node is the root of the path tree *)
+  G_root : forall r, r < rlen s -> fr_parent (gref s r) = None -> tref s r -> fr_node (gref s r) = 0;
+  G_keys : rkeys s;
   G_len : length g <= rlen s }.
 
 (** C08_coherent for one state: every live, non-fenced fidRef - owning its File or borrowing it - reaches
